@@ -1,6 +1,7 @@
 import GPVerif.Model.KernelIndex
 import GPVerif.Model.KernelIndexExec
 import GPVerif.Gen.LazyIndex
+import GPVerif.Gen.KernelCall
 import GPVerif.Model.Proto
 open Bcast PyIndex KernelIndex
 
@@ -16,6 +17,17 @@ open Bcast PyIndex KernelIndex
   kget  <kernel batch> ; <active_dims|N> | <items>  → Kernel.__getitem__ (generated flag): shape, active_dims, params
   kexp  <kernel batch> ; <new batch> ; <active_dims|N> → Kernel.expand_batch
   flags                                             → the generated flags
+  gk    <family> | <kernel batch> ; <x1 batch> ; <x2 batch> ; n1 n2 d | <θ per kernel batch element: nl ls… np ps… s k>
+        | <x1 storage> | <x2 storage> | <items>     → the REGENERATED matrix-level forward (`Gen.KernelCall.genMat`, Float):
+                                                      on the selected rows / batch elements (lazy path), the selected entries
+                                                      of the full evaluation, the full evaluation; IEEE bit patterns
+  gkd   <diag family> | … (as gk, no items)         → regenerated `diag=True` forward and the diagonal of the regenerated matrix
+  gkx   <family> | … (as gk) | r c                  → the regenerated forward on swapped, row-repeated and stacked inputs
+  cprep <active_dims|N> ; <debug 0/1> ; <ard|N> ; <x1> ; <x2>   with x ::= N | v n | m <batch> n d   (arange values)
+                                                    → the regenerated input preparation of `Kernel.__call__` run on them
+  cdiag <b1> ; <b2> ; <bk> ; n1 n2 ldb resDim l2a l2b → regenerated `res.diagonal()` decision of `Kernel.__call__(diag=True)`
+  gbranch rbf|matern g1 g2 <ard|N> diag ldb trace   → regenerated branch condition of `forward` (true = generic branch)
+  gflags                                            → regenerated constants of covar_dist / the fast-path callbacks
 
 shapes: comma separated ints (`-` = empty); items: `;`-separated  i:<k> | s:<a>:<b>:<c> | t:<k,k,…> | e
 -/
@@ -142,6 +154,194 @@ def stepKExp (rest : String) : String :=
 def stepFlags : String :=
   s!"getitem_indexes_active_dims={Gen.LazyIndex.getitemIndexesActiveDims};expand_batch_expands_active_dims={Gen.LazyIndex.expandBatchExpandsActiveDims}"
 
+/-! ### regenerated kernels at the matrix level (`Gen/KernelCall.lean`) -/
+
+open KernelMatrix in
+def famOfName : String → Option Fam
+  | "rbfGeneric" => some .rbfGeneric | "rbfFast" => some .rbfFast
+  | "matern12Generic" => some .matern12Generic | "matern32Generic" => some .matern32Generic
+  | "matern52Generic" => some .matern52Generic
+  | "matern12Fast" => some .matern12Fast | "matern32Fast" => some .matern32Fast | "matern52Fast" => some .matern52Fast
+  | "rq" => some .rq | "periodic" => some .periodic | "cosine" => some .cosine
+  | "linear" => some .linear | "linearSame" => some .linearSame
+  | "polynomial" => some .polynomial | "polynomialBatched" => some .polynomialBatched
+  | "pp0" => some .pp0 | "pp1" => some .pp1 | "pp2" => some .pp2 | "pp3" => some .pp3
+  | "constant" => some .constant
+  | _ => none
+
+open KernelMatrix in
+def diagFamOfName : String → Option DiagFam
+  | "rbf" => some .rbf | "rq" => some .rq | "periodic" => some .periodic | "polynomial" => some .polynomial
+  | "constant" => some .constant
+  | _ => none
+
+def showBits (l : List Float) : String := if l.isEmpty then "-" else ",".intercalate (l.map fun x => toString x.toBits.toNat)
+
+def floatsOf (s : String) : Option (Array Float) :=
+  ((Proto.tokens s).mapM Proto.parseRat?).map fun l => (l.map Scalar.floatOfRat).toArray
+
+def takeFloats (n : Nat) (ts : List String) : Option (List Float × List String) :=
+  if ts.length < n then none else ((ts.take n).mapM Proto.parseRat?).map fun l => (l.map Scalar.floatOfRat, ts.drop n)
+
+open KernelMatrix in
+/-- `nl ls… np ps… s k`, once per kernel batch element -/
+def parseThetas : Nat → List String → Option (List (Theta Float))
+  | 0, _ => some []
+  | n + 1, ts => do
+    let nl ← ts.head?.bind String.toNat?
+    let (ls, ts) ← takeFloats nl ts.tail
+    let np ← ts.head?.bind String.toNat?
+    let (ps, ts) ← takeFloats np ts.tail
+    let ([sv], ts) ← takeFloats 1 ts | none
+    let k ← ts.head?.bind String.toNat?
+    let rest ← parseThetas n ts.tail
+    some (⟨ls, ps, sv, k⟩ :: rest)
+
+open KernelMatrix in
+structure GkSetup where
+  bs : RShape
+  p : Params (Theta Float)
+  x1 : Inputs (List Float)
+  x2 : Inputs (List Float)
+
+open KernelMatrix in
+def gkSetup (hd par d1 d2 : String) : Option GkSetup :=
+  match (hd.splitOn ";").map (·.trimAscii.toString) with
+  | [kb, b1, b2, nn] => do
+    let kb ← commaNats kb; let b1 ← commaNats b1; let b2 ← commaNats b2
+    let [n1, n2, d] ← (Proto.tokens nn).mapM String.toNat? | none
+    let kb := ofTorch kb; let b1 := ofTorch b1; let b2 := ofTorch b2
+    let bs ← bcastR3 b1 b2 kb
+    let ths ← parseThetas (numel kb) (Proto.tokens par)
+    let dflt : Theta Float := ⟨[], [], 0.0, 0⟩
+    let p : Params (Theta Float) := ⟨kb, fun b => ths.getD (flat kb b) dflt⟩
+    let a1 ← floatsOf d1; let a2 ← floatsOf d2
+    if a1.size != numel b1 * n1 * d || a2.size != numel b2 * n2 * d then none else
+    some ⟨bs, p, ofStorage b1 n1 d a1, ofStorage b2 n2 d a2⟩
+  | _ => none
+
+open KernelMatrix in
+def stepGk (rest : String) : String :=
+  match (rest.splitOn "|").map (·.trimAscii.toString) with
+  | [fam, hd, par, d1, d2, its] =>
+    match famOfName fam, gkSetup hd par d1 d2, parseItems its with
+    | some f, some g, some items =>
+      let full := toTorch g.bs ++ [g.x1.n, g.x2.n]
+      match normalize full items with
+      | none => "none"
+      | some nit =>
+        if countAdv nit > 1 then "none" else
+        let rank := g.bs.length
+        let batch := (nit.take rank).reverse
+        let (rws, sqR) := asSel (nit.getD rank (.sel []))
+        let (cols, sqC) := asSel (nit.getD (rank + 1) (.sel []))
+        let F := Gen.KernelCall.genMat (Prims.euclid (α := Float)) f
+        let x1' := g.x1.getitem batch rws
+        let x2' := g.x2.getitem batch cols
+        let m := inputsEqual g.x1 g.x2
+        let m' := inputsEqual x1' x2'
+        let D := evalDenseMat F m g.bs g.p g.x1 g.x2
+        let L := evalDenseMat F m' (selShape batch) (g.p.getitem batch) x1' x2'
+        let viaDense := indexDense batch rws cols D
+        let shape := toTorch (selShape batch) ++ (if sqR then [] else [rws.length]) ++ (if sqC then [] else [cols.length])
+        s!"shape={showNats shape};same={m},{m'};lazy={showBits L.toFlat};direct={showBits viaDense.toFlat};full={showBits D.toFlat}"
+    | _, _, _ => "bad-request"
+  | _ => "bad-request"
+
+open KernelMatrix in
+def stepGkd (rest : String) : String :=
+  match (rest.splitOn "|").map (·.trimAscii.toString) with
+  | [fam, hd, par, d1, d2] =>
+    match diagFamOfName fam, gkSetup hd par d1 d2 with
+    | some gf, some g =>
+      if g.x1.n != g.x2.n then "none" else
+      let P := Prims.euclid (α := Float)
+      let m := inputsEqual g.x1 g.x2
+      let dv := evalDiagMat (Gen.KernelCall.genDiag P gf) m g.bs g.p g.x1 g.x2
+      let fd := diagonal (evalDenseMat (Gen.KernelCall.genMat P gf.toFam) m g.bs g.p g.x1 g.x2)
+      let fast := if gf == .rbf then
+          showBits (diagonal (evalDenseMat (Gen.KernelCall.genMat P .rbfFast) m g.bs g.p g.x1 g.x2)).toFlat else "-"
+      s!"same={m};diag={showBits dv.toFlat};fulldiag={showBits fd.toFlat};fastdiag={fast}"
+    | _, _ => "bad-request"
+  | _ => "bad-request"
+
+open KernelMatrix in
+def stepGkx (rest : String) : String :=
+  match (rest.splitOn "|").map (·.trimAscii.toString) with
+  | [fam, hd, par, d1, d2, rc] =>
+    match famOfName fam, gkSetup hd par d1 d2, (Proto.tokens rc).mapM String.toNat? with
+    | some f, some g, some [r, c] =>
+      let F := Gen.KernelCall.genMat (Prims.euclid (α := Float)) f
+      let sw := evalDenseMat F (inputsEqual g.x2 g.x1) g.bs g.p g.x2 g.x1
+      let x1r := g.x1.repeatRows r
+      let x2r := g.x2.repeatRows c
+      let rp := evalDenseMat F (inputsEqual x1r x2r) g.bs g.p x1r x2r
+      let st := if g.x1.bshape == g.x2.bshape then
+          let xs := g.x1.cat g.x2
+          showBits (evalDenseMat F true g.bs g.p xs xs).toFlat
+        else "-"
+      s!"swap={showBits sw.toFlat};rep={showBits rp.toFlat};stack={st}"
+    | _, _, _ => "bad-request"
+  | _ => "bad-request"
+
+/-! ### `Kernel.__call__`: regenerated input preparation and `diag` decision -/
+
+open KernelCall in
+def parsePT (s : String) (base : Nat) : Option (Option (PT Nat)) :=
+  match Proto.tokens s with
+  | ["N"] => some none
+  | ["v", n] => n.toNat?.map fun n => some (.vec ((List.range n).map (· + base)))
+  | ["m", b, n, d] => do
+    let b ← commaNats b; let n ← n.toNat?; let d ← d.toNat?
+    let b := ofTorch b
+    some (some (.mat d ⟨b, n, fun bi i => (List.range d).map fun c => base + (flat (n :: b) (i :: bi)) * d + c⟩))
+  | _ => none
+
+open KernelCall in
+def showPT : Option (PT Nat) → String
+  | none => "N"
+  | some (.vec l) => s!"v {showNats l}"
+  | some (.mat d x) =>
+    let vals := (allIdx (x.n :: x.bshape)).flatMap fun idx => x.pt (idx.drop 1) (idx.getD 0 0)
+    s!"m {showNats (toTorch x.bshape)} {x.n} {d} {showNats vals}"
+
+open KernelCall in
+def stepCPrep (rest : String) : String :=
+  match (rest.splitOn ";").map (·.trimAscii.toString) with
+  | [ad, dbg, ard, a, b] =>
+    match optNats ad, dbg.toNat?, optNats ard, parsePT a 0, parsePT b 100000 with
+    | some ad, some dbg, some ard, some (some x1), some x2 =>
+      match run ⟨ad, dbg != 0, ard.bind List.head?⟩ Gen.KernelCall.callPrep (St.init x1 x2) with
+      | .ok s => s!"ok;x1={showPT s.x1w};x2={showPT s.x2w}"
+      | .raised => "raised"
+      | .crashed => "crashed"
+    | _, _, _, _, _ => "bad-request"
+  | _ => "bad-request"
+
+def stepCDiag (rest : String) : String :=
+  match (rest.splitOn ";").map (·.trimAscii.toString) with
+  | [b1, b2, bk, nn] =>
+    match commaNats b1, commaNats b2, commaNats bk, (Proto.tokens nn).mapM String.toNat? with
+    | some b1, some b2, some bk, some [n1, n2, ldb, resDim, la, lb] =>
+      match Gen.KernelCall.callDiagTakesDiagonal (ofTorch b1) (ofTorch b2) (ofTorch bk) n1 n2 (ldb != 0) resDim (la, lb) with
+      | some r => toString r
+      | none => "none"
+    | _, _, _, _ => "bad-request"
+  | _ => "bad-request"
+
+def stepGBranch (ts : List String) : String :=
+  match ts with
+  | [which, g1, g2, ard, diag, ldb, tr] =>
+    let b (s : String) := s != "0"
+    let ardv : Option Nat := if ard = "N" then none else ard.toNat?
+    if which = "rbf" then toString (Gen.KernelCall.rbfTakesGeneric (b g1) (b g2) ardv (b diag) (b ldb) (b tr))
+    else if which = "matern" then toString (Gen.KernelCall.maternTakesGeneric (b g1) (b g2) ardv (b diag) (b ldb) (b tr))
+    else "bad-request"
+  | _ => "bad-request"
+
+def stepGFlags : String :=
+  s!"transposes={Gen.KernelCall.covarDistTransposesLastDim};defaults={Gen.KernelCall.covarDistDefaults};rbf_fast={Gen.KernelCall.rbfFastCallback};matern_fast={Gen.KernelCall.maternFastCallback}"
+
 def step (line : String) : String :=
   let line := line.trimAscii.toString
   match line.splitOn " " with
@@ -153,6 +353,13 @@ def step (line : String) : String :=
   | "kget" :: r => stepKGet (" ".intercalate r)
   | "kexp" :: r => stepKExp (" ".intercalate r)
   | "flags" :: _ => stepFlags
+  | "gk" :: r => stepGk (" ".intercalate r)
+  | "gkd" :: r => stepGkd (" ".intercalate r)
+  | "gkx" :: r => stepGkx (" ".intercalate r)
+  | "cprep" :: r => stepCPrep (" ".intercalate r)
+  | "cdiag" :: r => stepCDiag (" ".intercalate r)
+  | "gbranch" :: r => stepGBranch (r.filter (· != ""))
+  | "gflags" :: _ => stepGFlags
   | _ => "bad-request"
 
 def main : IO Unit := Proto.main step
